@@ -85,7 +85,7 @@ class Gen:
         if field == "GroupSize":
             return [("global", "GroupSize")], ("global",)
         if allow_other and self.chance(self.p["gtxn"]) and field != "GroupIndex":
-            style = r.choice(["gtxn", "gtxns_abs", "rel+", "rel+c", "rel-"])
+            style = r.choice(["gtxn", "gtxns_abs", "rel+", "rel+c", "rel-", "crel-"])
             if style == "gtxn":
                 i = r.choice([0, 0, 1, 1, 2, 3, 15])
                 self.features.add("gtxn")
@@ -95,6 +95,10 @@ class Gen:
                 self.features.add("gtxns_abs")
                 return self.int_ins(i) + [("gtxns", field)], ("abs", i)
             k = r.choice([1, 1, 2, 3])
+            if style == "crel-":
+                # `int n; txn GroupIndex; -`: member n - GroupIndex (subtraction does not commute)
+                self.features.add("gtxns_const_minus_index")
+                return self.int_ins(k) + [("txn", "GroupIndex"), ("-",), ("gtxns", field)], ("cminus", k)
             self.features.add("gtxns_rel")
             if style == "rel+":
                 return [("txn", "GroupIndex")] + self.int_ins(k) + [("+",), ("gtxns", field)], ("rel", k)
@@ -218,7 +222,7 @@ class Gen:
         if depth < self.p["max_depth"] and self.seq_ifs < self.p["max_seq_ifs"]:
             kinds += ["if"] * 4
             if self.p["loops"]:
-                kinds += ["loop"]
+                kinds += ["loop", "doloop"]
             if self.p["switch"]:
                 kinds += ["switch"]
         if self.subs_available(in_sub):
@@ -227,6 +231,9 @@ class Gen:
             kinds += ["ret", "err"]
         if not self.p["direct_only"]:
             kinds += ["carry"]
+        for extra, n in self.p.get("weights", {}).items():
+            if extra in kinds:
+                kinds += [extra] * n
         k = r.choice(kinds)
         if k == "check":
             return self.cond() + [("assert",)]
@@ -266,6 +273,8 @@ class Gen:
             return self.if_stmt(depth, in_sub)
         if k == "loop":
             return self.loop_stmt(depth, in_sub)
+        if k == "doloop":
+            return self.doloop_stmt(depth, in_sub)
         if k == "switch":
             return self.switch_stmt(depth, in_sub)
         raise ValueError(k)
@@ -317,6 +326,25 @@ class Gen:
             [("int", 0), ("store", s), ("label", top), ("load", s)] + self.int_ins(n) + [("<",), ("bz", end)]
             + body
             + [("load", s), ("int", 1), ("+",), ("store", s), ("b", top), ("label", end)]
+        )
+
+    def doloop_stmt(self, depth, in_sub):
+        """do { body } while (++i < n): the back edge targets the first block of the body directly
+        (which may be a callsub block, or hold a check)."""
+        self.features.add("doloop")
+        s = self.nscratch
+        self.nscratch += 1
+        top = self.lab("D")
+        n = self.r.choice([1, 2, 3])
+        body = self.stmts(depth + 1, in_sub, self.r.randint(1, 2))
+        if self.subs_available(in_sub) and self.chance(0.5):
+            body = [("callsub", self.r.choice(self.subs_available(in_sub)))] + body
+            self.features.add("call")
+        if body and body[-1][0] in ("return", "err"):
+            return [("int", 0), ("store", s), ("label", top)] + body
+        return (
+            [("int", 0), ("store", s), ("label", top)] + body
+            + [("load", s), ("int", 1), ("+",), ("store", s), ("load", s)] + self.int_ins(n) + [("<",), ("bnz", top)]
         )
 
     def switch_stmt(self, depth, in_sub):
